@@ -4,3 +4,6 @@ cd /verif
 P=${1:-3}
 printf "%s\n" C01 C02 C03 C04 C05 C06 C07 C08 C09 C10 C11 C12 C13 C14 C15 C16 C17 C18 C19 C20 | \
   xargs -P $P -I{} sh -c './check {} > /tmp/refresh-{}.log 2>&1; echo "{} rc=$? $(grep -c ^VIOLATION /tmp/refresh-{}.log) violations"'
+# a record written by a failing run must never be committed (C14.json once was: the run against an intermediate /repo
+# commit had a broken obligation, and only C02/C13 were re-run after the repair)
+python3-vt tools/validate_evidence.py
